@@ -21,13 +21,14 @@ import (
 func init() {
 	Register(&Prop{
 		ID: "C14", Bubble: true, Run: runC14, QuickRuns: 2500,
-		ExpectedProbes: []string{"recv_send_overlapped", "unary_calls_overlapped"},
+		ExpectedProbes: []string{"recv_send_overlapped", "unary_calls_overlapped", "real_grpc_run", "real_unary_end_to_end", "real_stream_end_to_end", "real_client_refusal", "real_server_refusal", "real_stream_refusal", "real_unary_ctx_fault_hit", "real_stream_ctx_fault_hit"},
 		Rule: "one run = one interceptor kind (unary server, unary client, server stream wrapper) with a seeded option combination (limiter given or default, each classifier given or default, custom limit-exceeded code and response) driven through a seeded sequence of calls / RecvMsg / SendMsg operations under a fault plan (limiter refuses call k, handler / invoker / stream errors such as io.EOF, context.Canceled and status errors at seeded positions, classifier answers among success / ignore / dropped); a quarter of the stream runs put RecvMsg and SendMsg of one stream on two tasks over real limit-1 limiters under a seeded schedule; " +
 			"oracle from the event log: Acquire on the right limiter precedes the wrapped call, wrapped call iff granted, exactly one listener method of the classified kind, result and error returned unchanged, refusal => no wrapped call, no listener call, status code and response of the limit-exceeded classifier; " +
+			"one run in eight is END-TO-END: a real gRPC server (library's unary and stream server interceptors over four real limit-1..3 limiters wrapped in recording ledgers) and a real gRPC client (library's unary client interceptor) talk HTTP/2 over an in-memory bufconn listener inside the bubble; 1-6 unary and bidirectional-stream calls with scripted handler durations and status codes arrive on the virtual clock, some with client deadlines or cancellations in the middle of the call (propagated by the real transport); the server's handler goroutines are adopted by the scheduler at their first scheduling point inside the limiter and interleaved with the client tasks by the seeded schedule; oracle over the ledgers after every call returned and the server went quiet: every granted token of every limiter completed exactly once, as dropped iff the call / handler it guarded returned an error; a client-side refusal never reaches the server; a server-side refusal never runs the handler and the client sees ResourceExhausted; without a context fault the client receives exactly the handler's status, reply and (streams) every echo in order, with one send token per SendMsg and one receive token per RecvMsg; all four limiters end with zero tokens in flight; " +
 			"non-trivial = the run contained a refusal, an error outcome and (streams) both directions; distinct = distinct choice tapes / event hashes",
-		Real:        []string{"grpc.UnaryServerInterceptor", "grpc.UnaryClientInterceptor", "grpc.StreamServerInterceptor (ssRecvWrapper)", "grpc options", "google.golang.org/grpc status/codes", "limiter.DefaultLimiter (concurrent part)"},
-		Stubs:       []string{"recording core.Limiter / core.Listener doubles", "fake UnaryHandler / UnaryInvoker / grpc.ServerStream (no network)"},
-		FaultKinds:  []string{"F-refuse", "F-outcome"},
+		Real:        []string{"grpc.UnaryServerInterceptor", "grpc.UnaryClientInterceptor", "grpc.StreamServerInterceptor (ssRecvWrapper)", "grpc options", "google.golang.org/grpc status/codes", "limiter.DefaultLimiter (concurrent and end-to-end parts)", "end-to-end part: google.golang.org/grpc v1.71.1 client, server and HTTP/2 transport (un-instrumented, runs to quiescence between scheduling decisions), bufconn in-memory listener, protobuf wrapperspb messages"},
+		Stubs:       []string{"protocol part: recording core.Limiter / core.Listener doubles, fake UnaryHandler / UnaryInvoker / grpc.ServerStream", "end-to-end part: no TCP socket (bufconn pipe), hand-written ServiceDesc instead of protoc-generated code"},
+		FaultKinds:  []string{"F-refuse", "F-outcome", "F-rpc-deadline", "F-rpc-cancel"},
 		Assumptions: []string{"stream operations: RecvMsg errors are classified by the stream server classifier, SendMsg errors by the stream client classifier (the mapping the package documents through its option names)"},
 	})
 }
@@ -121,6 +122,10 @@ func expectListener(rt clgrpc.ResponseType) string {
 
 func runC14(r *Run) {
 	t := r.T
+	if t.Chance(12, "real-grpc") {
+		runC14Real(r)
+		return
+	}
 	kind := t.Intn(3, "interceptor") // 0 unary server, 1 unary client, 2 stream
 	if kind == 2 && t.Chance(25, "concurrent") {
 		runC14Concurrent(r)
